@@ -38,7 +38,16 @@ func obs(r *big.Int, err error, pan interface{}) string {
 	if r == nil {
 		return "OErr 97"
 	}
-	return "OOk " + hx.CoqZ(r.String())
+	return "OOk " + coqBig(r)
+}
+
+// big integers as Coq terms: (zp "hex") / (zn "hex"), evaluated inside vm_compute
+func coqBig(n *big.Int) string {
+	h := hx.CoqHex(new(big.Int).Abs(n).Bytes())
+	if n.Sign() < 0 {
+		return "(zn " + h + ")"
+	}
+	return "(zp " + h + ")"
 }
 
 func safeParse(s string, d int64) (r *big.Int, err error, pan interface{}) {
@@ -154,7 +163,7 @@ func main() {
 		inRange := new(big.Int).Abs(n).Cmp(two256) < 0
 		// BigIntToStr and the round trip
 		s := utility.BigIntToStr(n)
-		cs.Add(fmt.Sprintf("CBStr %s %s", hx.CoqZ(n.String()), hx.CoqHex([]byte(s))), map[string]interface{}{"fn": "BigIntToStr", "n": n.String(), "obs": s})
+		cs.Add(fmt.Sprintf("CBStr %s %s", coqBig(n), hx.CoqHex([]byte(s))), map[string]interface{}{"fn": "BigIntToStr", "n": n.String(), "obs": s})
 		back, err, pan := safeParse(s, 18)
 		cs.Add(fmt.Sprintf("CParse %s 18%%Z (%s)", hx.CoqHex([]byte(s)), obs(back, err, pan)), map[string]interface{}{"fn": "StrToBigInt", "s": s})
 		ok := pan == nil && err == nil && back.Cmp(n) == 0
@@ -185,7 +194,7 @@ func main() {
 			}
 		}
 		// re-scaling
-		ds := []int64{18, int64(rng.Intn(19)), int64(rng.Intn(19))}
+		ds := []int64{18, int64(rng.Intn(19))}
 		if rng.Intn(6) == 0 {
 			ds = append(ds, int64(rng.Intn(33)-2))
 		}
@@ -198,8 +207,8 @@ func main() {
 				}()
 				e := utility.FormatDecimalForERC20(n, d)
 				k := utility.FormatDecimalForRocket(n, d)
-				cs.Add(fmt.Sprintf("CErc %s %s (%s)", hx.CoqZ(n.String()), hx.CoqZ(fmt.Sprint(d)), obs(e, nil, nil)), map[string]interface{}{"fn": "FormatDecimalForERC20", "n": n.String(), "decimal": d, "obs": fmt.Sprint(e)})
-				cs.Add(fmt.Sprintf("CRocket %s %s (%s)", hx.CoqZ(n.String()), hx.CoqZ(fmt.Sprint(d)), obs(k, nil, nil)), map[string]interface{}{"fn": "FormatDecimalForRocket", "n": n.String(), "decimal": d, "obs": fmt.Sprint(k)})
+				cs.Add(fmt.Sprintf("CErc %s %s (%s)", coqBig(n), hx.CoqZ(fmt.Sprint(d)), obs(e, nil, nil)), map[string]interface{}{"fn": "FormatDecimalForERC20", "n": n.String(), "decimal": d, "obs": fmt.Sprint(e)})
+				cs.Add(fmt.Sprintf("CRocket %s %s (%s)", coqBig(n), hx.CoqZ(fmt.Sprint(d)), obs(k, nil, nil)), map[string]interface{}{"fn": "FormatDecimalForRocket", "n": n.String(), "decimal": d, "obs": fmt.Sprint(k)})
 				cl := "rescale"
 				if inRange && n.Sign() >= 0 && d >= 0 && d <= 18 {
 					// stated law: ERC20(n,d) = n / 10^(18-d) (truncated), Rocket(n,d) = n * 10^(18-d); identity at d = 18
@@ -231,7 +240,7 @@ func main() {
 			p = []int{0, 1, 18, 77, 78, 79, 200}[rng.Intn(7)]
 		}
 		ps := utility.VerifBigIntToStr(n, p)
-		cs.Add(fmt.Sprintf("CStr %s %s %s", hx.CoqZ(n.String()), hx.CoqZ(fmt.Sprint(p)), hx.CoqHex([]byte(ps))), map[string]interface{}{"fn": "bigIntToStr", "n": n.String(), "p": p, "obs": ps})
+		cs.Add(fmt.Sprintf("CStr %s %s %s", coqBig(n), hx.CoqZ(fmt.Sprint(p)), hx.CoqHex([]byte(ps))), map[string]interface{}{"fn": "bigIntToStr", "n": n.String(), "p": p, "obs": ps})
 		res.Count("bigIntToStr", fmt.Sprintf("F|%d|%s", p, n.String()), n.Sign() != 0)
 		if res.Evaluations%97 == 0 {
 			res.Sample(map[string]interface{}{"fn": "BigIntToStr/StrToBigInt", "n": trunc(n.String()), "str": trunc(s), "back": trunc(fmt.Sprint(back))})
